@@ -525,11 +525,7 @@ class Loader:
         """Restore placements after reload."""
         integrity = collections.defaultdict(list)
 
-        members = self.cell.members()
         for servername in self.servers:
-            if servername not in members:
-                # Server is not part of the cell, nothing can be placed on it.
-                continue
             _placed_apps, restored_apps = self.restore_placement(servername)
             for appname in restored_apps:
                 integrity[appname].append(servername)
@@ -563,6 +559,16 @@ class Loader:
         server.remove_all()
 
         if not placed_apps:
+            return placed_apps, restored_apps
+
+        # Nothing can be placed on a server that is not part of the cell
+        # (its bucket is not attached), remove the placement.
+        node = server
+        while node.parent is not None:
+            node = node.parent
+        if node is not self.cell:
+            for appname in placed_apps:
+                self.backend.delete(z.path.placement(servername, appname))
             return placed_apps, restored_apps
 
         presence_node = z.path.server_presence(servername)
